@@ -10,7 +10,9 @@ What a register allocator sees of an instruction list:
 * a program = a list of instructions, the program counter is an index into it;
 * a physical register file with an *alias* relation: writing a physical register
   leaves every register that overlaps it (x86 `al/ax/eax/rax`, AVR `r25:r24`/`r24`)
-  with an arbitrary value.
+  with an arbitrary value;
+* register names are virtual registers or *fixed* physical registers used directly by
+  the instruction selector.
 
 Mirrors `ppci/arch/encoding.py:Instruction.{used_registers,defined_registers,clobbers,
 ismove,jumps}` and the control-flow convention of `ppci/codegen/flowgraph.py`: an
@@ -83,35 +85,65 @@ def newSt {Val σ : Type} (S : Sem Val σ) (ins : Instr) (args : List Val) (s : 
 def nextPc {Val σ : Type} (S : Sem Val σ) (p : Program) (i : Nat) (ins : Instr) (args : List Val) (s : σ) : Nat :=
   pick (succs p i ins) (S.br ins.sem args s) (i + 1)
 
-/-! ### the virtual-register machine: registers are independent variables -/
+/-! ### the register model
+
+`colour` maps every register name of the program to a physical register.  Names in
+`fixed` are physical registers that the instruction list mentions directly (precoloured:
+argument/return registers, frame pointer, `rax`/`rdx` of a division, AVR `r1:r0`, …); on
+them `colour` is the identity chosen by the instruction selector, not by the allocator.
+`alias` is the overlap table of the physical register file. -/
+
+structure RegModel where
+  alias : PReg → PReg → Bool
+  colour : VReg → PReg
+  fixed : VReg → Bool
+
+/-- `p` and `q` overlap: identical, or related by the alias table in either direction -/
+def ov (al : PReg → PReg → Bool) (p q : PReg) : Bool := p == q || al p q || al q p
+
+/-! ### the virtual-register machine
+
+Virtual registers are independent variables.  Fixed registers already are physical
+registers: writing or clobbering one leaves junk `J` in every *fixed* register that
+overlaps it (this is the behaviour of the input program, whatever the allocator does). -/
 
 structure VState (Val σ : Type) where
   pc : Nat
   regs : VReg → Val
   st : σ
 
-/-- write the defs left to right; the `k`-th def receives `vals k` -/
-def writeV {Val : Type} (vals : Nat → Val) : List VReg → Nat → (VReg → Val) → (VReg → Val)
-  | [], _, R => R
-  | d :: ds, k, R => writeV vals ds (k + 1) (fun r => if r = d then vals k else R r)
+def havocV {Val : Type} (M : RegModel) (J : PReg → Val) (R : VReg → Val) (q : PReg) : VReg → Val :=
+  fun r => if M.fixed r && ov M.alias q (M.colour r) then J (M.colour r) else R r
 
-def vstep {Val σ : Type} (S : Sem Val σ) (p : Program) (s : VState Val σ) : VState Val σ :=
+def writeRegV {Val : Type} (M : RegModel) (J : PReg → Val) (R : VReg → Val) (d : VReg) (x : Val) : VReg → Val :=
+  fun r => if r = d then x
+    else if M.fixed d && M.fixed r && ov M.alias (M.colour d) (M.colour r) then J (M.colour r)
+    else R r
+
+/-- write the defs left to right; the `k`-th def receives `vals k` -/
+def writeV {Val : Type} (M : RegModel) (J : PReg → Val) (vals : Nat → Val) :
+    List VReg → Nat → (VReg → Val) → (VReg → Val)
+  | [], _, R => R
+  | d :: ds, k, R => writeV M J vals ds (k + 1) (writeRegV M J R d (vals k))
+
+def vstep {Val σ : Type} (S : Sem Val σ) (M : RegModel) (J : PReg → Val) (p : Program)
+    (s : VState Val σ) : VState Val σ :=
   match p[s.pc]? with
   | none => s
   | some ins =>
     let args := ins.uses.map s.regs
     { pc := nextPc S p s.pc ins args s.st
-      regs := writeV (defVal S ins args s.st) ins.defs 0 s.regs
+      regs := writeV M J (defVal S ins args s.st) ins.defs 0 (ins.clobbers.foldl (havocV M J) s.regs)
       st := newSt S ins args s.st }
 
-def vrun {Val σ : Type} (S : Sem Val σ) (p : Program) : Nat → VState Val σ → VState Val σ
+/-- `Js n` is the junk that overlapping registers receive during the step with `n`
+    steps still to go (universally quantified in every theorem) -/
+def vrun {Val σ : Type} (S : Sem Val σ) (M : RegModel) (Js : Nat → PReg → Val) (p : Program) :
+    Nat → VState Val σ → VState Val σ
   | 0, s => s
-  | n + 1, s => vrun S p n (vstep S p s)
+  | n + 1, s => vrun S M Js p n (vstep S M (Js n) p s)
 
 /-! ### the physical machine: coloured operands, aliasing register file -/
-
-/-- `p` and `q` overlap: identical, or related by the alias table in either direction -/
-def ov (al : PReg → PReg → Bool) (p q : PReg) : Bool := p == q || al p q || al q p
 
 /-- clobbering `p`: `p` and everything overlapping it receive junk -/
 def havoc {Val : Type} (al : PReg → PReg → Bool) (J : PReg → Val) (P : PReg → Val) (p : PReg) : PReg → Val :=
@@ -121,10 +153,10 @@ def havoc {Val : Type} (al : PReg → PReg → Bool) (J : PReg → Val) (P : PRe
 def writeReg {Val : Type} (al : PReg → PReg → Bool) (J : PReg → Val) (P : PReg → Val) (p : PReg) (x : Val) : PReg → Val :=
   fun q => if q = p then x else if ov al p q then J q else P q
 
-def writeP {Val : Type} (al : PReg → PReg → Bool) (J : PReg → Val) (c : VReg → PReg) (vals : Nat → Val) :
+def writeP {Val : Type} (M : RegModel) (J : PReg → Val) (vals : Nat → Val) :
     List VReg → Nat → (PReg → Val) → (PReg → Val)
   | [], _, P => P
-  | d :: ds, k, P => writeP al J c vals ds (k + 1) (writeReg al J P (c d) (vals k))
+  | d :: ds, k, P => writeP M J vals ds (k + 1) (writeReg M.alias J P (M.colour d) (vals k))
 
 structure PState (Val σ : Type) where
   pc : Nat
@@ -134,22 +166,20 @@ structure PState (Val σ : Type) where
 /-- One step of the coloured program.  `rm i = true` marks an instruction the
     allocator deleted from the final list (a coalesced move): it does nothing.
     Otherwise: read the operands through the colouring, clobber, then write the defs. -/
-def pstep {Val σ : Type} (S : Sem Val σ) (al : PReg → PReg → Bool) (c : VReg → PReg) (rm : Nat → Bool)
+def pstep {Val σ : Type} (S : Sem Val σ) (M : RegModel) (rm : Nat → Bool)
     (J : PReg → Val) (p : Program) (s : PState Val σ) : PState Val σ :=
   match p[s.pc]? with
   | none => s
   | some ins =>
     if rm s.pc then { s with pc := s.pc + 1 } else
-    let args := ins.uses.map (fun v => s.regs (c v))
+    let args := ins.uses.map (fun v => s.regs (M.colour v))
     { pc := nextPc S p s.pc ins args s.st
-      regs := writeP al J c (defVal S ins args s.st) ins.defs 0 (ins.clobbers.foldl (havoc al J) s.regs)
+      regs := writeP M J (defVal S ins args s.st) ins.defs 0 (ins.clobbers.foldl (havoc M.alias J) s.regs)
       st := newSt S ins args s.st }
 
-/-- `Js n` is the junk that appears in aliased registers during step `n` (counted
-    from the end of the run, which is immaterial since `Js` is universally quantified) -/
-def prun {Val σ : Type} (S : Sem Val σ) (al : PReg → PReg → Bool) (c : VReg → PReg) (rm : Nat → Bool)
+def prun {Val σ : Type} (S : Sem Val σ) (M : RegModel) (rm : Nat → Bool)
     (Js : Nat → PReg → Val) (p : Program) : Nat → PState Val σ → PState Val σ
   | 0, s => s
-  | n + 1, s => prun S al c rm Js p n (pstep S al c rm (Js n) p s)
+  | n + 1, s => prun S M rm Js p n (pstep S M rm (Js n) p s)
 
 end Model.MCode
